@@ -1381,7 +1381,7 @@ func main() {
 	}
 	g := &gen{c, c.Rng.Fork()}
 	start := time.Now()
-	budget := time.Duration(c.Scale(27, 900)) * time.Second
+	budget := time.Duration(c.Scale(18, 900)) * time.Second
 	cases := g.templates()
 	cases = append(cases, g.randomCases(c.Scale(900, 30000))...)
 	// deterministic shuffle, so that a time budget cuts every class alike
